@@ -382,10 +382,16 @@ Definition wf (cfg : word) (ops : list word) : bool :=
 
 Definition ok4 (c : Z * Z * bool) : bool := (fst (fst c) =? 4) || snd c.
 
-Lemma clause_op_model k unk reg p :
-  forallb ok4 (clause_op k unk reg p (obs_of (serve unk reg p))) = true.
+Lemma serve_t_native unk reg p : serve_t false unk reg p = serve unk reg p.
+Proof. unfold serve_t, serve, transport_ok. cbn [negb orb]. rewrite andb_true_r. reflexivity. Qed.
+
+Lemma serve_t_http_no_slash unk reg p : starts_slash p = false -> serve_t true unk reg p = Rejected.
+Proof. intros H. unfold serve_t, transport_ok, http_ok. rewrite H. cbn [negb orb andb]. rewrite andb_false_r. reflexivity. Qed.
+
+Lemma clause_op_model k http unk reg p :
+  forallb ok4 (clause_op k http unk reg p (obs_of (serve_t http unk reg p))) = true.
 Proof.
-  unfold clause_op, serve. destruct (wire_ok p); cbn [negb].
+  unfold clause_op, serve_t. destruct (transport_ok http p); cbn [negb].
   2: { reflexivity. }
   rewrite forallb_app. apply andb_true_iff. split.
   2: { apply forallb_forall. intros x Hx. apply in_map_iff in Hx as (t & <- & _). reflexivity. }
@@ -403,9 +409,9 @@ Proof.
   - exact Hall.
 Qed.
 
-Lemma clauses_ops_model unk reg ops : forall k,
+Lemma clauses_ops_model http unk reg ops : forall k,
   forallb (fun op => match get_op op with Some _ => true | None => false end) ops = true ->
-  exists obs, run_ops unk reg ops = Some obs /\ forallb ok4 (clauses_ops k unk reg ops obs) = true.
+  exists obs, run_ops http unk reg ops = Some obs /\ forallb ok4 (clauses_ops k http unk reg ops obs) = true.
 Proof.
   induction ops as [|op r IH]; intros k Hwf; cbn [forallb] in Hwf.
   - exists []. split; reflexivity.
@@ -419,7 +425,7 @@ Theorem model_trace_holds cfg ops : wf cfg ops = true ->
 Proof.
   unfold wf, run, holds_b, clauses. intros H. apply andb_true_iff in H as [Hc Ho].
   destruct (get_cfg cfg) as [[unk reg]|]; [|discriminate].
-  exact (clauses_ops_model unk reg ops 0 Ho).
+  exact (clauses_ops_model (get_http cfg) unk reg ops 0 Ho).
 Qed.
 
 (* with '/'-free method names clause 4 is empty: then every clause holds *)
